@@ -319,6 +319,17 @@ def generate(prop, rng, tier):
                     "M2": [rng.choice([0.03, 0.1, 0.2]) for _ in els], "per_element": per_element,
                     "rows": rows, "columns": rng.choice(["from_to", "range_mean"]),
                     "loops": [[float(rng.randint(-300, 100)), float(rng.randint(20, 400))] for _ in rows]}
+        if per_element and rows[0][0] is None and rng.random() < 0.5:
+            # sensitivities per (element, node) in mesh order (shared nodes, not sorted by first appearance)
+            n_e = rng.randint(1, 3)
+            pairs = []
+            for e in rng.sample([1, 2, 3, 7], n_e):
+                for nd in rng.sample([1, 2, 3, 5, 8], rng.randint(2, 3)):
+                    pairs.append([e, nd])
+            tr["ms"]["elements"] = pairs
+            tr["ms"]["M"] = [rng.choice([0.1, 0.2, 0.3, 0.4, 0.5, 0.6]) for _ in pairs]
+            tr["ms"]["M2"] = [rng.choice([0.03, 0.05, 0.1, 0.12, 0.15, 0.22]) for _ in pairs]
+            tr["ms"]["mesh_sens"] = True
         if per_element and rows[0][0] is not None and rng.random() < 0.4:
             parts = []
             for _e in els:
@@ -783,7 +794,11 @@ class MsHistory:
             self.sens = sens.copy()
             self.hd = MST.HaighDiagram(sens)
         else:
-            if spec["per_element"]:
+            if spec.get("mesh_sens"):
+                # sensitivities per (element, node) of a mesh with shared nodes: a two-level index in mesh order
+                sens = pd.DataFrame({"M": spec["M"], "M2": spec["M2"]},
+                                    index=pd.MultiIndex.from_tuples([tuple(e) for e in els], names=["element_id", "node_id"]))
+            elif spec["per_element"]:
                 sens = pd.DataFrame({"M": spec["M"], "M2": spec["M2"]}, index=pd.Index(els, name="element_id"))
             else:
                 sens = pd.Series({"M": spec["M"][0], "M2": spec["M2"][0]})
@@ -874,18 +889,21 @@ class MsHistory:
                         out.count("observation:element_alone_differs_from_closed_form")
                 else:
                     amp = goodman_scalar(sa, sm, self.spec["M"][ei], self.spec["M2"][ei], Rg)
-                key = (el if (self.spec["per_element"]) else None, c)
+                ent = tuple(el) if isinstance(el, list) else el
+                key = (ent if (self.spec["per_element"]) else None, c)
                 want[key] = 2.0 * amp
         try:
             pc = names.index("cycle_number")
             pe = names.index("element_id") if "element_id" in names else None
+            pn = names.index("node_id") if "node_id" in names else None
             ir = list(res.columns).index("range")
         except ValueError:
             out.violate("B4-derived-calculation", "index", {"step": k, "names": _n(names), "calculation": "meanstress"})
             return False
         seen = set()
         for r, v in zip(rs["rows"], rs["values"]):
-            key = (r[pe] if pe is not None else None, r[pc])
+            ent = None if pe is None else (r[pe] if pn is None else (r[pe], r[pn]))
+            key = (ent, r[pc])
             seen.add(key)
             w = want.get(key)
             g = v[ir]
